@@ -200,5 +200,5 @@ def shape_of(scn):
              "".join(n["cls"] for n in scn["config"]["nodes"])]
     for s in scn["steps"]:
         f = s.get("fault") or s.get("body") or {}
-        parts.append("%s%s%s" % (s["op"][:3], s.get("n", s.get("dst", "")), f.get("kind", "")))
+        parts.append("%s%s%s%s" % (s["op"][:3], s.get("n", s.get("dst", "")), f.get("kind", ""), s.get("what", "")))
     return "|".join(parts)
